@@ -10,19 +10,24 @@ pub const REGIONS: [&str; 8] = ["us-east-1", "eu-west-1", "us-east-1a", "us-east
 pub const SERVICES: [&str; 7] = ["service", "s3", "svc", "servic", "Service", "service2", ""];
 pub const METHODS: [&str; 10] = ["GET", "POST", "PUT", "DELETE", "HEAD", "PATCH", "OPTIONS", "PURGE", "get", "Post"];
 
-pub const SEG_ALPHA: [&[u8]; 24] = [
+pub const SEG_ALPHA: [&[u8]; 28] = [
+    // numeric characters that are not ASCII digits: ½ ٣ ３ Ⅷ
+    b"\xc2\xbd", b"\xd9\xa3", b"\xef\xbc\x93", b"\xe2\x85\xa7",
     b"a", b"b", b"x.y", b"a b", b"\xc3\xa9", b"%", b"a/b", b"*", b"!", b"~", b"a=b", b"a&b", b"?", b"#", b"\x00", b"\xff",
     b"...", b"A", b"0", b"+", b"%41", b"..a", b"a..", b"-_",
 ];
-pub const NAME_ALPHA: [&[u8]; 30] = [
+pub const NAME_ALPHA: [&[u8]; 32] = [
+    b"\xc2\xbd", b"\xd9\xa3",
     b"a ", b"x\n", b"\t", b" a",
     b"\xef\xbb\xbfbom", b"\xef\xbb\xbf",
     b"a", b"a-b", b"a1", b"a.", b"b", b"", b"A", b"a b", b"\xc3\xa9", b"x=y", b"x&y", b"%41", b"+", b"~", b"Action",
     b"X-Amz-Foo", b"a%", b"a-", b"a!", b"a~", b"aa", b"\xff", b"\x00", b"a+b",
 ];
-pub const HEADER_POOL: [&str; 15] = [
+pub const HEADER_POOL: [&str; 21] = [
     "x-custom", "x-amz-meta-a", "etag", "content-md5", "accept", "user-agent", "x-amz-content-sha256", "x-cube", "x-amz-meta-b",
     "cache-control", "x-amz-meta-a-b", "x-custom-2", "content-length", "x-amz-meta-a2", "x-http-method-override",
+    // headers that intermediaries add; names with the token characters that sort after letters
+    "x-amz-cf-id", "x-amzn-trace-id", "x-route|primary", "x-route-backup", "x-route^a", "x-route`b",
 ];
 
 pub fn gen_secret(t: &mut Tape) -> String {
@@ -112,12 +117,12 @@ pub fn gen_node(t: &mut Tape, k: &NodeKnobs) -> Node {
     let mut cond = Vec::new();
     let mut prefixes = Vec::new();
     if k.requirements && t.chance(2) {
-        for h in ["content-type", "x-amz-content-sha256", "x-custom", "x-amz-date", "host"] {
+        for h in ["content-type", "x-amz-content-sha256", "x-custom", "x-amz-date", "host", "x-custom-2", "x-amz-content"] {
             if t.chance(4) {
                 always.push(h.to_string());
             }
         }
-        for h in ["etag", "x-custom", "content-md5", "x-amz-security-token", "x-cube"] {
+        for h in ["etag", "x-custom", "content-md5", "x-amz-security-token", "x-cube", "x-custom-2", "x-cub"] {
             if t.chance(3) {
                 cond.push(h.to_string());
             }
@@ -165,6 +170,11 @@ pub fn gen_pairs(t: &mut Tape, max: usize) -> Pairs {
     if max >= 4 && t.chance(60) {
         // a long parameter list with few distinct names (sorting by name alone is not enough)
         n = 33 + t.below(30);
+    }
+    if max >= 4 && t.chance(300) {
+        // more parameters than any fixed-size table holds (1024, 1025, … short ones)
+        let n = [1023, 1024, 1025, 1100, 1300][t.below(5)] + t.below(3);
+        return (0..n).map(|i| (format!("p{}", i % 700).into_bytes(), if i % 3 == 0 { Vec::new() } else { vec![b'a' + (i % 26) as u8] })).collect();
     }
     let mut v: Pairs = Vec::new();
     for _ in 0..n {
@@ -352,7 +362,10 @@ pub fn gen_logical(t: &mut Tape, node: &Node, k: &ReqKnobs) -> Logical {
             let noise = t.below(6) as u64;
             body = render_form_body(&p, t, noise);
             form_pairs = Some(p);
-            let ct: &[u8] = match t.below(5) {
+            let ct: &[u8] = match t.below(7) {
+                // a parameter whose name only resembles `charset` is some other parameter
+                5 => b"application/x-www-form-urlencoded; \x85charset=foobar",
+                6 => b"application/x-www-form-urlencoded;\xa0charset=foobar; boundary=x",
                 0 => b"application/x-www-form-urlencoded; charset=utf-8",
                 1 => b"application/x-www-form-urlencoded;charset=UTF8",
                 2 => b"application/x-www-form-urlencoded ; charset=unicode-1-1-utf-8",
@@ -381,6 +394,12 @@ pub fn gen_logical(t: &mut Tape, node: &Node, k: &ReqKnobs) -> Logical {
             // looks like a form but is not declared as one
             let p = gen_pairs(t, 3);
             body = render_form_body(&p, t, 0);
+            if t.chance(3) {
+                // … or declared as something that only resembles the form type (a no-break space or
+                // next-line byte is not padding)
+                let ct: &[u8] = [&b"application/x-www-form-urlencoded\xa0"[..], b"\x85application/x-www-form-urlencoded", b"application/x-www-form-urlencoded\xa0; charset=utf-8", b"application/x-www-form-urlencodedx"][t.below(4)];
+                headers.push(("content-type".into(), ct.to_vec()));
+            }
         }
         _ => {}
     }
@@ -463,6 +482,17 @@ pub fn sign_message(t: &mut Tape, mut l: Logical, node: &Node, acct: &Account, a
         if !t.chance(4) {
             signed.push(date_name.to_string());
         }
+        if date_name == "x-amz-date" && t.chance(10) {
+            // the HTTP stack stamps its own Date header as well (RFC 1123 text, or a stale or
+            // current ISO one): X-Amz-Date is the one that counts
+            let v: Vec<u8> = match t.below(3) {
+                0 => b"Sun, 30 Aug 2015 12:36:00 GMT".to_vec(),
+                1 => refm::compact_utc(instant - 7200 * NS).into_bytes(),
+                _ => date_text.clone().into_bytes(),
+            };
+            let pos = t.below(l.headers.len() + 1);
+            l.headers.insert(pos, ("date".to_string(), v));
+        }
         if t.chance(25) {
             // an ordinary query parameter that merely has the name the *other* carrier uses for
             // its token: with the header carrier it is not consulted for authentication
@@ -522,6 +552,12 @@ pub fn sign_message(t: &mut Tape, mut l: Logical, node: &Node, acct: &Account, a
     }
     signed.sort();
     signed.dedup();
+    if t.chance(25) {
+        // a list that names a header twice is a list like any other (and signed as it stands)
+        let d = signed[t.below(signed.len())].clone();
+        signed.push(d);
+        signed.sort();
+    }
     let mut a = Auth {
         carrier,
         access_key: acct.access_key.clone(),
